@@ -24,22 +24,23 @@ theorem earth_radius_is_not_wgs84 :
 theorem equator_station_position : geodeticToCartesian 0 0 0 = [6378136.3, 0, 0] := by
   simp [geodeticToCartesian, earthR]
 
-/-! ## counter-witness: a mask given at creation as a numpy array is rejected
+/-! ## regression witness: a mask given at creation as a numpy array is stored as given
 
-`create_station(name, latlonalt, mask=np.array([[az…], [el…]]))` — the "2D array of float" its docstring asks for — raises
-ValueError: `TopocentricFrame.__init__` evaluates `np.asarray(mask) if mask else None`, and the truth value of an array with more
-than one element is ambiguous (known finding `C11-mask-ndarray-at-creation`).  `initMask` / `createStationMask` are translated
-from the source on every run. -/
+Until /repo commit e7f290a `TopocentricFrame.__init__` evaluated `np.asarray(mask) if mask else None`, and
+`create_station(name, latlonalt, mask=np.array([[az…], [el…]]))` — the "2D array of float" its docstring asks for — raised
+ValueError (the truth value of an array is ambiguous; finding `C11-mask-ndarray-at-creation`, fixed).  The test is now
+`mask is not None and len(mask)`.  `initMask` / `createStationMask` are translated from the source on every run: should the
+truth-value test come back, these stop building. -/
 
-/-- for every table: handed over at creation as an ndarray, it is not stored — the constructor raises -/
-theorem mask_given_as_ndarray_is_rejected (tbl : List (ℝ × ℝ)) :
-    createStationMask (.arr tbl) = .raises ∧ initMask (.arr tbl) = .raises :=
+/-- for every table: handed over at creation as an ndarray, it is stored as given -/
+theorem mask_given_as_ndarray_is_stored (tbl : List (ℝ × ℝ)) :
+    createStationMask (.arr tbl) = .stored (.table tbl) ∧ initMask (.arr tbl) = .stored (.table tbl) :=
   ⟨rfl, rfl⟩
 
 /-- concrete input: the two-node table `[[π, 2π], [0.05, 0.4]]` as an array -/
-example : createStationMask (.arr [(Real.pi, 0.05), (2 * Real.pi, 0.4)]) = .raises := rfl
+example : createStationMask (.arr [(Real.pi, 0.05), (2 * Real.pi, 0.4)]) = .stored (.table [(Real.pi, 0.05), (2 * Real.pi, 0.4)]) := rfl
 
-/-- … while the same table as a list of two rows is stored as given -/
+/-- … exactly as the same table given as a list of two rows -/
 example : createStationMask (.seq [(Real.pi, 0.05), (2 * Real.pi, 0.4)]) = .stored (.table [(Real.pi, 0.05), (2 * Real.pi, 0.4)]) := rfl
 
 end BeyondVerif.C11W
